@@ -113,6 +113,14 @@ def main():
         a.tier, ", ".join("%s exit %d" % (p, x["exit"]) for p, x in results.items())))
     out = os.path.join(HERE, "seeded", "%s-%s" % (a.pid, a.tag))
     os.makedirs(out, exist_ok=True)
+    old_meta = os.path.join(out, "meta.json")
+    if "baseline" not in meta and os.path.exists(old_meta):      # re-evaluation with --skip-baseline: keep the first result
+      try:
+        prev = json.load(open(old_meta))
+        if "baseline" in prev:
+          meta["baseline"] = prev["baseline"]
+      except Exception:      # pylint: disable=broad-except
+        pass
     shutil.copy(a.patch, os.path.join(out, "patch.diff"))
     shutil.copy(a.demo, os.path.join(out, "demo.py"))
     with open(os.path.join(out, "meta.json"), "w") as f:
